@@ -520,6 +520,26 @@ func genXR(r *Rand, tier string, emit func(string)) {
 			d = depth - 1
 		}
 		al := xrAlphabet(r, st, d >= 4)
+		// bound the size of the exhaustive part whatever streams the seed produced: a depth whose
+		// scenario lines would exceed the budget is lowered (a big stream under a 40-letter
+		// alphabet at depth 3 is several hundred megabytes of lines)
+		budget := 24 << 20
+		if tier == "thorough" {
+			budget = 400 << 20
+		}
+		for d > 1 {
+			cost := 2 * (len(st.stream) + len(st.plain) + 40)
+			for k := 0; k < d; k++ {
+				cost *= len(al)
+				if cost > budget {
+					break
+				}
+			}
+			if cost <= budget {
+				break
+			}
+			d--
+		}
 		var rec func(prefix []string, k int)
 		rec = func(prefix []string, k int) {
 			if k == 0 {
